@@ -353,6 +353,10 @@ func (viso *VirtualISO) makeDirEntries(item *dirItem, joliet bool) error {
 				lba += multiExtentPartSize.sectors()
 			}
 
+			if entry.size() > maxDirectoryEntrySize {
+				return fmt.Errorf("name of %s is too long for directory record", fileItem.path)
+			}
+
 			if joliet {
 				item.dirEntryJoliet = append(item.dirEntryJoliet, entry)
 			} else {
@@ -380,6 +384,10 @@ func (viso *VirtualISO) makeDirEntries(item *dirItem, joliet bool) error {
 			Identifier:           makeIdentifier(dirItem.name, joliet),
 		}
 
+		if entry.size() > maxDirectoryEntrySize {
+			return fmt.Errorf("name of %s is too long for directory record", dirItem.path)
+		}
+
 		if joliet {
 			item.dirEntryJoliet = append(item.dirEntryJoliet, entry)
 		} else {
@@ -391,6 +399,9 @@ func (viso *VirtualISO) makeDirEntries(item *dirItem, joliet bool) error {
 
 	// total size must be integer number of sectors so ceil it if needed
 	totalSizeBytes = totalSizeBytes.sectors().bytes()
+	if totalSizeBytes > maxPartSize {
+		return fmt.Errorf("directory %s has too many entries", item.path)
+	}
 
 	// set correct size to first entry
 	if joliet {
@@ -443,6 +454,10 @@ func (viso *VirtualISO) makePathTable(joliet bool) (pathTable, error) {
 			}
 
 			pathTableEntry.ParentDirNumber = int16(parentIdx + 1)
+		}
+
+		if len(pathTableEntry.DirIdentifier) > 0xFF { // identifier length is stored in one byte
+			return nil, fmt.Errorf("name of %s is too long for path table", viso.rootDir[i].path)
 		}
 
 		pathTableEntry.DirLocation = viso.rootDir[i].dirEntry[0].ExtentLocation
